@@ -68,13 +68,13 @@ CHECKS = {
         "assumptions": ["negative Add during a send is unrolled for |delta| <= 3"],
     },
     "C09": {
-        "explanation": "Exclusive: a work function that parks forever on key A does not delay a blocking Call on key B (every interleaving, T=26). Thorough: two async calls on one key with their two runner goroutines under every interleaving (T=34): work functions never overlap, each call is answered by an execution begun after it, outcomes carry the work result, no per-key state remains; and two prefix-bounded three-call harnesses (T=30): an execution finishing with / without a queued call while a start-style call arrives at an arbitrary moment.",
+        "explanation": "Exclusive: a work function that parks forever on key A does not delay a blocking Call on key B (every interleaving, T=26). Thorough: two async calls on one key with their two runner goroutines under every interleaving (T=34): work functions never overlap, each call is answered by an execution begun after it, outcomes carry the work result, no per-key state remains; and two prefix-bounded three-call harnesses of start-style calls (T=26 / 28): an execution finishing with / without a queued call while further calls arrive at arbitrary moments.",
         "quick": [sched("Harness_C09_excl_other_key", 26, timeout_ms=300000)],
         "thorough": [sched("Harness_C09_excl_same_key", 34, unwind_fn="call=2", timeout_ms=400000),
-                     sched("Harness_C09_excl_late_call", 30, unwind_fn="call=2", timeout_ms=600000, prefix_only=True),
-                     sched("Harness_C09_excl_idle_finish", 30, unwind_fn="call=2", timeout_ms=600000, prefix_only=True)],
+                     sched("Harness_C09_excl_late_start", 26, unwind_fn="call=2", timeout_ms=600000, prefix_only=True, wall_timeout_s=5000),
+                     sched("Harness_C09_excl_idle_starts", 28, unwind_fn="call=2", timeout_ms=600000, prefix_only=True, wall_timeout_s=5000)],
         "assumptions": ["at most three calls per key in one harness, in fixed shapes (see harness comments)",
-                        "the two three-call harnesses (a start-style call arriving while an execution finishes, with and without a queued call) are PREFIX-BOUNDED: every schedule is followed for T=30 steps and cut there (the bound-adequacy query is satisfiable); their assertions - in particular 'a work function is never entered while another is running', asserted inline - hold on all those prefixes, quiescence properties only on the schedules that finish within 30 steps"],
+                        "the two three-call harnesses (a start-style call arriving while an execution finishes, with and without a queued call) are PREFIX-BOUNDED: every schedule is followed for T=26 / 28 steps and cut there (the bound-adequacy query is satisfiable); their assertions - in particular 'a work function is never entered while another is running', asserted inline - hold on all those prefixes, quiescence properties only on the schedules that finish within the bound"],
     },
     "C10": {
         "explanation": "Exclusive: a single call whose work function never resolves yields errResolveNotCalled, and no per-key state remains at quiescence (every interleaving of caller and runner, T=22). Thorough: two async calls on one key (T=34) and a Start that coalesces with a later CallAsync behind a running execution (T=36): every call receives exactly one outcome from an execution begun after it, one execution per coalesced batch, no per-key state remains, nothing is left blocked; the same shape with a coalesced work function that never resolves: the call is answered with errResolveNotCalled whichever goroutine of the batch executes it.",
